@@ -270,7 +270,8 @@ impl Check for C20 {
         // of which a LATER one fails to install; the add then reports an error, the first service is installed all the
         // same, and everything below (its upgrade in particular) is judged on that service
         let mut o = o;
-        let partial = node_port.is_none() && metrics_port.is_none() && !pa.first && cx.rng.gen_bool(0.25);
+        let batch_possible = node_port.is_none() && metrics_port.is_none() && !pa.first;
+        let partial = batch_possible && cx.rng.gen_bool(0.25);
         if partial {
             let count = cx.rng.gen_range(2..=3u16);
             o.count = Some(count);
@@ -278,9 +279,16 @@ impl Check for C20 {
             o.rpc_port = Some(PortRange::Range(rpc_port, rpc_port + count - 1));
             os.0.lock().expect("os").fail_nth_of = Some(("install".to_string(), cx.rng.gen_range(1..count as usize)));
             cx.count("batch-adds-with-a-later-install-failing");
+        } else if batch_possible && cx.rng.gen_bool(0.3) {
+            // a batch of two or three services that all install: every one of them is judged against its own upgrade below
+            let count = cx.rng.gen_range(2..=3u16);
+            o.count = Some(count);
+            o.rpc_port = Some(PortRange::Range(rpc_port, rpc_port + count - 1));
+            cx.count("batch-adds");
         }
         let added = rt.block_on(add_node(o, &mut registry, &os, VerbosityLevel::Minimal));
         os.0.lock().expect("os").fail_nth_of = None;
+        let first_add_ctxs: Vec<_> = os.0.lock().expect("os").installed_ctx.clone();
         let added = if partial && added.is_err() && !registry.nodes.is_empty() { Ok(vec![]) } else { added.map(|_| vec![()]) };
         let install = os.0.lock().expect("os").installed_ctx.first().cloned();
         let w = json!({"options": combo, "batch_add_with_a_failed_install": partial});
@@ -313,6 +321,12 @@ impl Check for C20 {
                 format!("/ip4/127.0.0.1/udp/{port}/quic-v1").parse().expect("multiaddr"),
                 format!("/ip4/10.9.8.7/udp/{}/quic-v1/p2p/{}/p2p-circuit", if port == 40_123 { 40_124 } else { 40_123 }, libp2p::PeerId::random()).parse().expect("multiaddr"),
             ];
+            // a node may also listen on tcp / websocket; one time in three such a listener is reported ahead of the quic one
+            let mut listeners = listeners;
+            if cx.rng.gen_bool(0.34) {
+                listeners.insert(0, format!("/ip4/127.0.0.1/tcp/{}/ws", if port == 40_200 { 40_201 } else { 40_200 }).parse().expect("multiaddr"));
+                cx.count("started-before-upgrade:non-udp-listener-reported-first");
+            }
             let pid = 1001;
             let started = {
                 let service = NodeService::new(&mut registry.nodes[0], Box::new(ListenRpc { pid, listeners })).with_connection_timeout(Duration::from_secs(1));
@@ -402,6 +416,26 @@ impl Check for C20 {
             cx.eval();
             if a != b {
                 cx.violation(format!("upgrade-definition-differs:{what}"), format!("{what}: installed {a}, regenerated at upgrade {b}"), ww.clone());
+            }
+        }
+        // ---- the other services of the same batch: what each was installed with vs. what its own upgrade regenerates
+        for ctx in first_add_ctxs.iter().skip(1) {
+            let Some(i) = registry.nodes.iter().position(|n| n.service_name == ctx.label.to_string()) else { continue };
+            let opts_i = UpgradeOptions { auto_restart, env_variables: registry.environment_variables.clone(), force: false, start_service: false, target_bin_path: root.join("antnode-src"), target_version: semver::Version::new(9, 9, 9) };
+            let up = NodeService::new(&mut registry.nodes[i], Box::new(NoRpc)).build_upgrade_install_context(opts_i);
+            cx.eval();
+            cx.count("batch-siblings-judged");
+            let Ok(up) = up else { continue };
+            for (what, a, b) in [
+                ("program", format!("{:?}", ctx.program), format!("{:?}", up.program)),
+                ("username", format!("{:?}", ctx.username), format!("{:?}", up.username)),
+                ("working-directory", format!("{:?}", ctx.working_directory), format!("{:?}", up.working_directory)),
+                ("environment", format!("{:?}", ctx.environment), format!("{:?}", up.environment)),
+                ("autostart", ctx.autostart.to_string(), up.autostart.to_string()),
+            ] {
+                if a != b {
+                    cx.violation(format!("upgrade-definition-differs:{what}"), format!("service {} of a batch add: {what}: installed {a}, regenerated at upgrade {b}", ctx.label), ww.clone());
+                }
             }
         }
         // ---- the real antnode interprets both
